@@ -162,12 +162,16 @@ class OpenTracker:
         return sum(1 for im in self.opened if id(im) not in self.closed)
 
 
-SIZES = {}  # rendered size -> [index, hash(rendered_size)], per case, shared by the two runs
+SIZES = {}  # (rendered size, pixel size of the render) -> [index, hash(rendered_size)], per case, shared by the two runs
 
 
 def size_index(image):
+    """identity of what a frame is rendered for: the rendered size (cells) AND the pixel size of the render
+    (`_get_render_size()`: for graphics-based styles rendered size x cell size; a function of the rendered size
+    alone for text-based styles).  The stamp reported is the code's: hash(rendered_size)."""
     rs = image.rendered_size
-    key = (int(rs[0]), int(rs[1]))
+    px = image._get_render_size()
+    key = (int(rs[0]), int(rs[1]), int(px[0]), int(px[1]))
     if key not in SIZES:
         SIZES[key] = [len(SIZES), hash(rs)]
     return SIZES[key][0]
@@ -304,7 +308,7 @@ def run_case(case):
             "ctor": ["ok", "ok"],
             "cached": legacy(a) if seen_a != seen_b else None, "uncached": legacy(b) if seen_a != seen_b else None,
             "runs": {"cached": a, "uncached": b},
-            "sizes": [[w, h, v[1]] for (w, h), v in sorted(SIZES.items(), key=lambda kv: kv[1][0])],
+            "sizes": [[w, h, v[1], pw, ph] for (w, h, pw, ph), v in sorted(SIZES.items(), key=lambda kv: kv[1][0])],
             "hash_box_injective": BOX_OK}
 
 
